@@ -843,7 +843,71 @@ def run(idx: ProgramIndex, rep: Report, tier: str):
     check_getitem(idx, rep)
     check_layout(idx, rep)
     layout_kept_outside(idx, rep)
+    constructor_bypass(idx, rep)
+    binary_layouts(idx, rep)
     from .common_alias import aliasing_obligations
     rep.rule("C11-6", "the caller's batch indices and computed event index tensors never share a subscript (advanced indices in one subscript are zipped element-wise)")
     rep.rule("C11-4", "no in-place aliasing hazard in MultitaskMultivariateNormal (storage/version domain)")
     aliasing_obligations(idx, rep, "C11-4", list(idx.cls(MOD, "MultitaskMultivariateNormal").methods.values()), 10, "MultitaskMultivariateNormal methods interpreted")
+
+
+# ---- C11-7 ---------------------------------------------------------------------------------------------------------
+def constructor_bypass(idx: ProgramIndex, rep: Report):
+    """MultivariateNormal.expand / unsqueeze build the result for dense covariances with `self.__new__(type(self))` and torch's constructor,
+    i.e. WITHOUT the constructor of the subclass: the multitask layout (_interleaved, _output_shape) is not there afterwards.  Every subclass
+    that adds state in its constructor has to override each such method."""
+    rep.rule("C11-7", "a method of MultivariateNormal that creates the result with __new__ (bypassing the subclass constructor) is overridden by every subclass whose constructor adds state")
+    M = idx.cls("gpytorch.distributions.multivariate_normal", "MultivariateNormal")
+    bypass = []
+    for name, m in sorted(M.methods.items()):
+        if any(isinstance(c, ast.Call) and isinstance(c.func, ast.Attribute) and c.func.attr == "__new__" for c in ast.walk(m.node)):
+            bypass.append(m)
+    if not bypass:
+        raise AnalysisError("C11-7: no method of MultivariateNormal builds its result with __new__ any more (anchor vanished)")
+    base_init = idx.method(M, "__init__", own=True)
+    base_attrs = {t.attr for a in ast.walk(base_init.node) if isinstance(a, ast.Assign) for t in a.targets if isinstance(t, ast.Attribute) and chain(t.value) == base_init.params[0]}
+    n = 0
+    for cls in sorted(idx.subclasses(M, strict=True), key=lambda c: c.qualname):
+        init = cls.methods.get("__init__")
+        if init is None:
+            continue
+        own = sorted({t.attr for a in ast.walk(init.node) if isinstance(a, ast.Assign) for t in a.targets if isinstance(t, ast.Attribute) and chain(t.value) == init.params[0]} - base_attrs)
+        if not own:
+            continue
+        for m in bypass:
+            n += 1
+            ok = m.name in cls.methods
+            rep.add("C11-7", "%s:%s.%s[constructor bypassed by the inherited method]" % (cls.module.name, cls.qualname, m.name), m.where, ok,
+                    "%s overrides %s" % (cls.qualname, m.name) if ok else
+                    "MultivariateNormal.%s builds the result for dense covariances with self.__new__(type(self)) and torch's constructor; %s.__init__ adds %s, which the result then lacks: %s(mean, dense covariance).%s(...) returns an object whose mean / event_shape / log_prob raise AttributeError" % (m.name, cls.qualname, ", ".join("self." + a for a in own), cls.qualname, m.name), {})
+    rep.floor("C11-7", "constructor-bypassing methods x subclasses with own state", n, 2)
+
+
+# ---- C11-8 ---------------------------------------------------------------------------------------------------------
+def binary_layouts(idx: ProgramIndex, rep: Report):
+    """p + q and KL(p || q) combine the flattened means / covariances of both operands.  Two multitask distributions may store the same
+    joint Gaussian in different layouts; an operation that takes `other.lazy_covariance_matrix` as it is must consult the layout of
+    `other` as well as its own."""
+    rep.rule("C11-8", "binary operations that combine the covariances of two (possibly multitask) distributions consult the layout of both operands")
+    M = idx.cls("gpytorch.distributions.multivariate_normal", "MultivariateNormal")
+    T = idx.cls(MOD, "MultitaskMultivariateNormal")
+    sites = []
+    add = M.methods.get("__add__")
+    if add is not None:
+        sites.append(("MultivariateNormal.__add__", add, add.params[0], add.params[1]))
+    kl = idx.function("gpytorch.distributions.multivariate_normal", "kl_mvn_mvn")
+    sites.append(("kl_mvn_mvn", kl, kl.params[0], kl.params[1]))
+    n = 0
+    for label, fi, a, b in sites:
+        own = T.methods.get(fi.name) if fi.cls is not None else None
+        f = own or fi
+        combines = any(isinstance(x, ast.Attribute) and x.attr in ("lazy_covariance_matrix", "covariance_matrix") and isinstance(x.value, ast.Name) and x.value.id == b for x in ast.walk(fi.node))
+        if not combines:
+            continue
+        n += 1
+        consults = sum(1 for x in ast.walk(f.node) if isinstance(x, ast.Attribute) and x.attr in ("_interleaved", "interleaved")) >= 2 or \
+            any(isinstance(c, ast.Call) and isinstance(c.func, ast.Attribute) and "layout" in c.func.attr for c in ast.walk(f.node))
+        rep.add("C11-8", "%s[layout of both operands]" % label, f.where, consults,
+                "the layouts of both operands are compared / aligned" if consults else
+                "%s combines the flattened mean and covariance of `%s` with its own (or the first operand's) as they are; for two MultitaskMultivariateNormals in different layouts (interleaved / task-major) holding the SAME joint Gaussian, p + q has a covariance 6.3 off 2 Sigma and kl_divergence(p, q) = 1.54 instead of 0" % (label, b), {})
+    rep.floor("C11-8", "binary operations over two distributions", n, 2)
